@@ -48,8 +48,40 @@ T = {
     "C18-m2-rn-mask-clears-fz": ("rounding-control field cleared with a 3-bit mask (also clears FZ, bit 15)", "a context that requests only a rounding mode while FZ is set (entered inside an FZ context or with FZ set by the caller)", True, ""),
     "C19-m1-negzero-lower-bound": ("real_samples: abs() dropped on the lower bound in the min_value >= 0 branch", "min_value = -0.0 (bit pattern 0x80..0 used as start ordinal)", True, ""),
     "C19-m2-complex-pair-imag-bound-index": ("complex_pair_samples takes the imaginary bound of the second operand from the wrong tuple index", "per-operand bounds that differ between operands", False, "C19 per-operand (tuple) bounds for real_pair/triple, complex and complex_pair samples"),
-    "C17-m1": ("", "", True, ""),
-    "C17-m2": ("", "", True, ""),
+
+    # ---- second wave (three changes per property, each in a different function)
+    "C17-m1-ln2-constants-cached-on-context": ("get_log2_doubleword_and_inverse caches its constants on the context object, ignoring the dtype-selecting argument", "one NumpyContext used for several float types, narrower type first", False, "C17 histories on one shared NumpyContext (all dtype sequences of length 2 and 3, scalar and 0-d array inputs) compared with fresh-context results"),
+    "C17-m2-trig-select-fp16-t-is-r": ("argument_reduction_trigonometric: type-generic select returns fp16_r for t", "float16 input that is not a NumPy scalar (0-d array / traced expression): the type-generic path", False, "C17 second and third route to the same functions: 0-d arrays through NumpyContext (type-generic path) and the traced+emitted NumPy function, bit-compared with the scalar route"),
+    "C01-m3-sqrt-overflow-fallback-r-for-sqrt-r": ("complex_sqrt overflow fallback uses r where sqrt(r) belongs", "|x| in the top half binade with x^2+y^2 > largest^2 and |x| > |y|", True, ""),
+    "C01-m4-fast2sum-compensation-sign": ("algorithms.add_2sum fast branch: t = z - y instead of y - z", "complex log with |z| within a few ULP of 1", True, ""),
+    "C01-m5-logical-not-lt-becomes-lt": ("Rewriter.logical_not: not (a < b) -> lt(b, a) instead of le(b, a)", "a == b exactly; in asin_acos_kernel |x| == sqrt(largest)/8*1e12", True, ""),
+    "C03-m3-kernel-region-signed-x": ("asin_acos_kernel region test uses signed_x instead of x", "Re z <= -1 with |Re z| in [1, 1.5]", True, ""),
+    "C03-m4-atanh-imag-sign-factored": ("complex_atanh: sign of y factored out of the imaginary part", "an imaginary part equal to -0.0 (only the sign of a zero result changes)", True, ""),
+    "C03-m5-atan-both-negations-dropped": ("complex_atan: both negations of the rotation dropped", "real-axis inputs z = x +- 0j", True, ""),
+    "C04-m3-nonnegative-mul-nonpositive-times-positive": ("Expr._is_nonnegative: (nonpositive * positive) inferred strictly negative", "a product of a weakly non-positive non-constant factor and a positive constant compared with 0, evaluated where the factor is 0", False, "C04 scope T representatives: positive/negative numeric constants other than +-1 (which the rewriter folds away)"),
+    "C04-m4-logical-not-gt-becomes-lt": ("Rewriter.logical_not: not (a > b) -> lt(a, b) instead of le(a, b)", "a == b with an explicit logical_not over a bare gt", True, ""),
+    "C04-m5-constant-fold-keeps-python-float": ("Rewriter.constant no longer converts Python floats to the target dtype before folding", "a fold of two constants that are inexact in float32 (0.1 + 0.2 == 0.3)", False, "C04 scope F: comparisons and operations over foldable pairs of constants that are not representable in float32"),
+    "C05-m4-cpp-ge-as-gt": ("C++ ge template emits >", "operands of ge exactly equal", True, ""),
+    "C05-m5-numpy-make-argument-ref": ("numpy make_argument prints arg.ref", "one Context re-used with the same parameter name in another dtype", True, ""),
+    "C05-m6-trace-resets-ref-registry": ("Context.trace resets the reference registry", "one Context: trace+emit first, then trace second with a shared sub-expression whose cached name is re-bound", True, ""),
+    "C06-m3-stablehlo-arg-constraint-from-last-arg": ("stablehlo Pat header takes every argument's element constraint from the last argument", "a signature mixing real and complex arguments", True, ""),
+    "C06-m4-cpp-make-constant-neginf-sign": ("cpp make_constant (constant printer of xla_client): -inf printed as +infinity", "a raw float -inf constant (not the named neginf) on xla_client", False, "C06 constants: numeric +-inf and -0.0 in the lattice"),
+    "C06-m5-xla-log10-as-log1p": ("xla_client table: log10 rendered as Log1p", "a native log10 node on xla_client", False, "C06 lattice derives its kinds from both reference tables and the target's own table (every declared kind is exercised)"),
+    "C07-m3-likeless-literal-memo": ("Context.constant memoises like-less literals by (type, value)", "constant(0.0) then constant(-0.0) without like (also alt contexts)", False, "C07 family F3 (like-less literals, three Context parameter sets)"),
+    "C07-m4-normalize-like-absolute": ("normalize_like replaces absolute(z) by z also for complex z", "a constant whose like is abs of a complex symbol next to one whose like is the symbol", False, "C07 family F3 (likes that are negative/absolute of real and complex symbols)"),
+    "C07-m5-type-fromobject-int-width": ("Type.fromobject drops the width of 'int<N>' spellings", "symbols/constants typed int32 vs int64 (strings or NumPy classes)", False, "C07 family F3 (type spellings, integer widths)"),
+    "C08-m3-numpy-finfo-constant-uncast": ("numpy make_constant skips the cast for finfo constants", "a named finfo constant (eps, largest, ...) with a complex like that gets its own variable", False, "C08 variant with a reference forced on every node (constants included), so the debug assertion covers inline nodes"),
+    "C08-m4-select-type-from-cond-and-first-branch": ("Expr.get_type(select) joins operands 0 and 1 instead of 1 and 2", "a select whose second branch is wider / more complex than the first", True, ""),
+    "C08-m5-type-max-width-filter-self-kind": ("Type.max bit-width filter uses self.kind", "real operand first and narrower than half the complex operand (float32 op complex128)", True, ""),
+    "C09-m3-call-counter-process-global": ("Context.call stack-name counter kept in a default argument (process-global)", "a function that goes through ctx.call and has a local name clashing with the callee's, after other generations in the process", True, ""),
+    "C09-m4-logical-or-order-by-intkey": ("Rewriter.logical_or canonical order by intkey instead of key", "one Context re-used: an operand of the or created by an earlier function", False, "C09 histories on one Context (same-signature definitions sharing sub-expressions; text compared with the fresh-Context text up to renaming of generated names)"),
+    "C09-m5-make-ref-hash-of-key": ("make_ref fallback name uses hash(expr.key)", "different PYTHONHASHSEED, a function with an unnamed shared sub-expression", True, ""),
+    "C16-m3-exponent-by-squaring-odd-step": ("fast_exponent_by_squaring odd step multiplies by r instead of x", "balanced/canonical schemes, degree >= 5/10", True, ""),
+    "C16-m4-add-number-first-drops-reverse": ("polynomial.add with a bare number as first operand drops reverse", "first operand a bare number, reverse=True, list of >= 2 entries", False, "C16 number operands (first/second) for add and multiply"),
+    "C16-m5-fpa-rpolynomial-degree0": ("fpa.rpolynomial peels the first Horner step", "a single-entry ratio list (degree 0)", True, ""),
+    "C18-m3-set-mxcsr-skips-cached-value": ("set_mxcsr skips ldmxcsr when the value equals the last one written through that instance", "two register instances alternating writes", True, ""),
+    "C18-m4-enter-caches-new-state": ("context.__enter__ caches the modified value of its first entry", "one context object entered twice under different ambient MXCSR", True, ""),
+    "C18-m5-exit-pops-oldest": ("context.__exit__ pops the oldest saved state", "re-entrant use of one context object", True, ""),
 }
 
 
